@@ -229,7 +229,9 @@ func runTCP(c *TCPCase) (fail *failure, class string, nt bool, sig string) {
 			return nil
 		}
 		want := m.d[d].exp
-		ok := h.wait(B, func() bool { return len(col[1-d].buf) >= want || returned })
+		// (when the relay has returned it has closed its ends: the collector then drains what
+		// is buffered and finishes, so "done" is the right thing to wait for, not "returned")
+		ok := h.wait(B, func() bool { return len(col[1-d].buf) >= want || col[1-d].done })
 		got := 0
 		h.do(func() { got = len(col[1-d].buf) })
 		if got >= want {
